@@ -24,7 +24,7 @@ import (
 )
 
 type spec struct {
-	Kind  string      `json:"kind"` // "A" sequential interleavings, "B" live concurrent writer
+	Kind  string      `json:"kind"` // "A" sequential interleavings, "B" live concurrent writer, "S" live writer + checkpoint-then-snapshot stress
 	Seed  int64       `json:"seed"`
 	Ops   int         `json:"ops"`
 	Cfg   hist.Config `json:"cfg"`
@@ -64,6 +64,20 @@ func cases(run *vf.Run) ([]json.RawMessage, error) {
 		cfg.MaxSyncLTXFiles = 0
 		out = append(out, vf.Spec(spec{Kind: "B", Seed: vf.SubSeed(run.Seed, "C02B-case", i), Cfg: cfg, RunMs: ms}))
 	}
+	nS := 6
+	if run.Tier == "thorough" {
+		nS = 40
+	}
+	for i := 0; i < nS; i++ {
+		rng := rand.New(rand.NewSource(vf.SubSeed(run.Seed, "C02S", i)))
+		cfg := hist.RandomConfig(rng)
+		cfg.PageSize = []int{4096, 512, 8192}[i%3]
+		cfg.MinCheckpointPageN = 1000
+		cfg.TruncatePageN = 0
+		cfg.MaxSyncWALFrames = 0
+		cfg.MaxSyncLTXFiles = 0
+		out = append(out, vf.Spec(spec{Kind: "S", Seed: vf.SubSeed(run.Seed, "C02S-case", i), Cfg: cfg, RunMs: ms}))
+	}
 	for i := 0; i < nA; i++ {
 		rng := rand.New(rand.NewSource(vf.SubSeed(run.Seed, "C02A", i)))
 		cfg := hist.RandomConfig(rng)
@@ -83,7 +97,7 @@ func runCase(run *vf.Run, raw json.RawMessage, dir string) *vf.Result {
 		res.HarnessErr = err.Error()
 		return res
 	}
-	if s.Kind == "B" {
+	if s.Kind == "B" || s.Kind == "S" {
 		return runB(s, dir, res)
 	}
 	return runA(s, dir, res)
@@ -208,9 +222,18 @@ func checkAllTXIDs(e *hist.Env, res *vf.Result) int {
 		maxL0 = f.Max
 	}
 	targets := map[int]bool{}
-	for n := 1; n <= maxL0; n++ {
+	// every integer TXID; for very long concurrent runs a deterministic stride
+	// over level-0 TXIDs (all TXIDs advertised by derived files are always kept)
+	stride := 1
+	if maxL0 > 400 {
+		stride = (maxL0 + 399) / 400
+		res.Count("l0_txids_sampled_with_stride", 1)
+	}
+	for n := 1; n <= maxL0; n += stride {
 		targets[n] = true
 	}
+	targets[maxL0] = true
+	delete(targets, 0)
 	for _, f := range e.ReplicaFiles() {
 		targets[f.Max] = true
 	}
@@ -275,6 +298,11 @@ func runB(s spec, dir string, res *vf.Result) *vf.Result {
 	ci := []time.Duration{0, 5 * time.Millisecond, time.Hour}[rng.Intn(3)]
 	e.Tune = func(db *litestream.DB) {
 		db.MonitorInterval = mon
+		if s.Kind == "S" {
+			// no background WAL sync: only the explicit checkpoint/snapshot pairs (and
+			// their internal syncs) run against the live writer
+			db.MonitorInterval = 0
+		}
 		db.BusyTimeout = 200 * time.Millisecond
 		db.CheckpointInterval = ci
 		db.Replica.MonitorEnabled = true
@@ -377,6 +405,23 @@ func runB(s spec, dir string, res *vf.Result) *vf.Result {
 			}
 			var err error
 			var name string
+			if s.Kind == "S" {
+				// a checkpoint that runs without a write barrier, immediately followed by a snapshot
+				m := []string{"FULL", "RESTART", "TRUNCATE", "FULL"}[r.Intn(4)]
+				if err := e.LS.Checkpoint(ctx, m); err == nil {
+					hmu.Lock()
+					res.Count("S_checkpoint_"+m+"_ok", 1)
+					hmu.Unlock()
+				}
+				if _, err := e.LS.Snapshot(ctx); err == nil {
+					hmu.Lock()
+					res.Count("S_snapshot_ok", 1)
+					hmu.Unlock()
+				}
+				maint.Add(1)
+				time.Sleep(time.Duration(r.Intn(3)) * time.Millisecond)
+				continue
+			}
 			switch r.Intn(6) {
 			case 0:
 				name = "snapshot"
@@ -428,9 +473,9 @@ func runB(s spec, dir string, res *vf.Result) *vf.Result {
 	res.Count("B_commits", int(commits.Load()))
 	res.Count("B_rollbacks", int(rollbacks.Load()))
 	distinctK := checkAllTXIDs(e, res)
-	res.Sig = fmt.Sprintf("B-%d-%s", s.Seed, s.Cfg.String())
+	res.Sig = fmt.Sprintf("%s-%d-%s", s.Kind, s.Seed, s.Cfg.String())
 	res.Nontrivial = commits.Load() >= 20 && distinctK >= 3
-	res.Sample = map[string]any{"kind": "B", "cfg": s.Cfg.String(), "monitor_ms": mon.Milliseconds(), "commits": commits.Load(), "rollbacks": rollbacks.Load(), "maintenance_ops": maint.Load(), "distinct_k": distinctK}
+	res.Sample = map[string]any{"kind": s.Kind, "cfg": s.Cfg.String(), "monitor_ms": mon.Milliseconds(), "commits": commits.Load(), "rollbacks": rollbacks.Load(), "maintenance_ops": maint.Load(), "distinct_k": distinctK}
 	return res
 }
 
